@@ -20,16 +20,15 @@ RULE = ("pages built directly from genuine LTChar objects with exact binary coor
         "vertical runs, overlapping runs, random scatter incl. off-page, zero-width/height and blank/empty-text glyphs; "
         "LAParams over a grid of dyadic values incl. 0, negative, huge margins, boxes_flow None/-1..1, detect_vertical; "
         "LTPage.analyze observed as a tree and compared (a) with Model/Layout.v evaluated in Coq on the same rationals "
-        "(whole structure: box order, indices, boxes, lines, inserted spaces, line breaks, empties) whenever the heap has "
-        "no distance ties, (b) with the conservation/well-formedness oracle on every case; plus generated PDF documents "
+        "(whole structure: box order, indices, boxes, lines, inserted spaces, line breaks, empties), incl. heap ties, "
+        "(b) with the conservation/well-formedness oracle on every case; plus generated PDF documents "
         "through extract_pages with figures and shapes. Non-trivial: >= 2 lines or >= 2 boxes.")
 TRUSTED = [
     "modelled by hand: LTComponent overlap/distance helpers, LTTextLine*.add, group_objects, find_neighbors, "
     "group_textlines, group_textboxes (heap = repeated minimum), analyze passes and IndexAssigner (Model/Layout.v); the "
     "spatial index is the C20 model (Model/Plane.v) with its generated clamp/drange",
     "floats: inputs are binary-exact and small, so Python's float arithmetic is exact and equals the model's rationals; "
-    "heap ties are broken by id() (memory addresses) in the implementation -- such cases are detected by the model and "
-    "checked by the oracle only",
+    "heap ties are broken by creation order in the implementation (since repo fix 14047fc) and in the model",
 ]
 ASSUMPTIONS = ["line_margin >= 0 for the conservation theorem of group_textlines (a line is then its own neighbour)"]
 MANIFEST_ENTRY = {
@@ -170,8 +169,7 @@ def cases(ctx, n):
             continue
         mboxes, mempties, mgroups, amb = val
         if amb:
-            namb += 1
-            continue
+            namb += 1            # equal distances in the heap: ordered by creation order in model and implementation
 
         def mq(v):
             return Fraction(v[0], v[1])
@@ -185,7 +183,7 @@ def cases(ctx, n):
         ib = [[b[0], b[1], [fr(v) for v in b[2]], [iline(l) for l in b[3]]] for b in boxes]
         if mb != ib or [mline(l) for l in mempties] != [iline(l) for l in empties]:
             ctx.disagree(fam, inp, repr(mb)[:600], repr(ib)[:600])
-    ctx.note("%d of %d cases had heap ties (oracle only)" % (namb, len(metas)))
+    ctx.note("%d of %d cases had heap ties (compared as well)" % (namb, len(metas)))
 
 
 def raw_page(pdf):
